@@ -44,6 +44,7 @@ ENTROPY_OK = {('r', 'generate_uniform_random_number'), ('r', 'generate_gaussian_
               ('d', 'generate_levy_distribution'), ('d', 'generate_bernoulli_distribution'),
               ('g', 'tournament_selection')}
 PURE_MODULE_FUNCS = {('g', 'euclidean_distance'), ('g', 'pairwise')}
+NP_INPLACE = {'copyto', 'put', 'place', 'putmask', 'put_along_axis', 'fill_diagonal', 'shuffle'}
 PURE_BUILTINS = {'len', 'int', 'round', 'sum', 'range', 'enumerate', 'zip', 'float', 'abs', 'min', 'max', 'list', 'tuple'}
 AMBIENT_MODULES = {'random', 'time', 'os', 'secrets', 'sys', 'datetime', 'uuid', 'threading'}
 AMBIENT_BUILTINS = {'id', 'hash', 'input', 'open', 'globals', 'vars', 'exec', 'eval', 'setattr', 'getattr', 'delattr', 'set'}
@@ -433,6 +434,10 @@ class Tr:
                 for a in list(node.args) + [k.value for k in node.keywords]:
                     self.ev_num(a, env)
                 return NUM()
+            if (fn.mod == 'np' or fn.mod.startswith('np.')) and (
+                    any(k.arg == 'out' for k in node.keywords) or fn.name in NP_INPLACE):
+                # found by the state replay: `p = a.position; np.multiply(p, 0.5, out=p)` was dropped as pure arithmetic
+                self.err(node, 'np.%s writes into one of its arguments (out= / in-place function): the array may be an agent position' % fn.name)
             if fn.mod.startswith('np.random') or (fn.mod == 'np' and fn.name == 'random'):
                 self.note_draw(node, '%s.%s' % full)
                 for a in list(node.args) + [k.value for k in node.keywords]:
